@@ -250,7 +250,7 @@ RULES = [r20_1, r20_2, r20_3]
 CLAIM = (
     "bookkeeping clauses only: R20.1 add_outier_bins adds (range.low, first.left] in front and (last.right, range.high] at the end, "
     "expand_boundaries widens the outer bins to (range.low, first.right] and (last.left, range.high], each exactly under the test "
-    "that the learned bins stop short of that limit; R20.2 HistogramVectorizer.transform fills row i from sequence i, cut with "
+    "that the learned bins stop short of that limit, and each widening reads the list as the previous one left it (no snapshot of a bin taken before a store is used after it - with one learned bin both ends are one slot); R20.2 HistogramVectorizer.transform fills row i from sequence i, cut with "
     "the fitted bins and counted by value_counts() (or through the bin codes with the no-bin code -1 filtered out); R20.3 KDEVectorizer.transform builds its KernelDensity with the fitted bandwidth, fits it inside the row loop "
     "on the row's sample alone, evaluates it on the fitted grid and stores it in that row."
 )
